@@ -326,6 +326,31 @@ def body(chk, db, cfgname):
     site = M + "check_workers:finish-decided-every-call"
     from checks.lehmann import early_exits_before
     ee = early_exits_before(f, sends[0])
+    # a return taken exactly when the Finish condition does not hold IS the decision (guard-clause form of the same test):
+    # every alternative under which it is taken must contain `jobs are left` or `not all workers idle`
+    def _is_decision(rnode):
+        par = None
+        for a_ in f.ancestors(rnode):
+            if f.nodes[a_]["k"] == "if":
+                par = a_
+                break
+        if par is None:
+            return False
+        inthen = any(x_ == rnode for x_, _ in f.walk(f.nodes[par]["then"]))
+        alts = ctx.cmp_dnf(f.nodes[par]["c"], inthen)
+        if not alts:
+            return False
+        jobs_left = ("false", ("mcall", "std::stack::empty", fld(M + "JobStack")))
+        for alt in alts:
+            busy = False
+            try:
+                busy = entails(frozenset(alt), ("<", ("mcall", "std::stack::size", fld(M + "WorkerStack")), fld(M + "Nprocs")))
+            except Exception:
+                busy = False
+            if not (jobs_left in alt or busy):
+                return False
+        return True
+    ee = [r_ for r_ in ee if not _is_decision(r_)]
     if ee:
         fa_ = at.get(f.cfg.pos1(ee[0]), frozenset())
         from checks.c20 import fact_str as _fs
